@@ -155,7 +155,7 @@ func verifyObject(obj *code.Object) *vstat.Failure {
 		}
 		d := depth[pc]
 		if d < e.pop {
-			return vstat.Failf("verifier:stack-underflow", "pc %d %v pops %d with possibly only %d on the stack", pc, in, e.pop, d)
+			return vstat.Failf(fmt.Sprintf("verifier:stack-underflow@%v", in.Opcode), "pc %d %v pops %d with possibly only %d on the stack", pc, in, e.pop, d)
 		}
 		nd := d - e.pop + e.push
 		switch in.Opcode {
